@@ -72,9 +72,9 @@ theorem sort_choice_irrelevant (H : Hashes) (S S' : SortFn) (get : Store) (n : N
 
 example : load toyH SortFn.ins.sort (layoutStore ch 2 true (some 28) rev) 6 (mkFrame ch 2 true (some 28) rev 0)
     = load toyH SortFn.merge.sort (layoutStore ch 2 true (some 28) rev) 6 (mkFrame ch 2 true (some 28) rev 0) :=
-  sort_choice_irrelevant toyH _ _ _ 6 _ _ ((List.range' 0 5).map (mkFrame ch 2 true (some 28) rev))
-    (by decide : walk (layoutStore ch 2 true (some 28) rev) 6 (mkFrame ch 2 true (some 28) rev 0) = .ok _)
-    (by decide) (canon_strict ch 2 true (some 28) rev 0 5)
+  sort_choice_irrelevant toyH _ _ _ 6 _ ([0, 2, 4, 3, 1].map (mkFrame ch 2 true (some 28) rev))
+    ((List.range' 0 5).map (mkFrame ch 2 true (some 28) rev)) (by decide) (by decide)
+    (canon_strict ch 2 true (some 28) rev 0 5)
 
 /-! ### 2. soundness of an `ok` answer -/
 
@@ -101,13 +101,13 @@ theorem reassemble_sound (H : Hashes) (S : SortFn) (get : Store) (n : Nat) (firs
       cases hh : first.hash with
       | none =>
         simp [htot, hh] at hb
-        exact ⟨hb.symm, fun t ht => by cases ht, fun h hh' => by cases hh'⟩
+        exact ⟨hb.symm, fun t ht => (by cases ht), fun h hh' => (by cases hh')⟩
       | some h =>
         simp only [htot, hh, if_true] at hb
         by_cases hv : verifyHash H (payloadOf fs) h = true
         · simp only [hv, if_true] at hb
           injection hb with hb
-          refine ⟨hb.symm, fun t ht => by cases ht, fun h' hh' => ?_⟩
+          refine ⟨hb.symm, fun t ht => (by cases ht), fun h' hh' => ?_⟩
           injection hh' with hh'; subst hh'; subst hb
           unfold verifyHash at hv
           simpa using hv
@@ -117,13 +117,13 @@ theorem reassemble_sound (H : Hashes) (S : SortFn) (get : Store) (n : Nat) (firs
       · cases hh : first.hash with
         | none =>
           simp [htot, hh, hcnt] at hb
-          exact ⟨hb.symm, fun t' ht => by injection ht with ht; omega, fun h hh' => by cases hh'⟩
+          exact ⟨hb.symm, fun t' ht => (by injection ht with ht; omega), fun h hh' => (by cases hh')⟩
         | some h =>
           simp only [htot, hh, hcnt, decide_true, if_true] at hb
           by_cases hv : verifyHash H (payloadOf fs) h = true
           · simp only [hv, if_true] at hb
             injection hb with hb
-            refine ⟨hb.symm, fun t' ht => by injection ht with ht; omega, fun h' hh' => ?_⟩
+            refine ⟨hb.symm, fun t' ht => (by injection ht with ht; omega), fun h' hh' => ?_⟩
             injection hh' with hh'; subst hh'; subst hb
             unfold verifyHash at hv
             simpa using hv
@@ -188,7 +188,7 @@ theorem alter_detected (H : Hashes) (S : SortFn) (chunks : List Bytes) (F : Nat)
         (H.crc (chunks.set c d).flatten = h ∨ H.fnv (chunks.set c d).flatten = h))) := by
   refine ⟨flatten_set_ne chunks c d hc hd, ?_⟩
   have hne : chunks.set c d ≠ [] := by
-    intro e; have := congrArg List.length e; simp at this; omega
+    apply List.ne_nil_of_length_pos; rw [List.length_set]; omega
   have hl := load_layout H S (chunks.set c d) F tot (some h) σ hne hF hσ get
     (by simpa using hget) n (by simpa using hn)
   rw [hl]
@@ -282,7 +282,8 @@ theorem accum_map_complete (H : Hashes) (S : SortFn) (chunks : List Bytes) (F : 
   unfold txMeta
   simp only [hs]
   rw [reassemble_ok H S chunks F true h σ hne hF hσ hh (lookup m) hm fuel hfuel]
-  simp
+  simp only [Bool.false_eq_true, if_false]
+  cases accRun H S.sort fuel [] rest <;> rfl
 
 /-- a single-frame payload: the shortcut used by `accum` and `Transaction.GetSolanaTransaction` (the frame's
 own bytes checked against its own hash) is what `LoadDataFromDataFrames` answers for a frame without links -/
